@@ -106,7 +106,7 @@ theorem CInv_step (I J K : Nat) (hJ : 1 ≤ J) (hJn : J < n) (hK : K < s2) (st :
     · intro _
       have h1 := (h i j k hj hk).2 (by unfold Done; omega)
       have h2 := (h i (j-1) k (by omega) hk).1 (by unfold Done; omega)
-      unfold cumStep setAt
+      unfold cumStep monoSetAt
       simp only [if_true]
       rw [h1, h2]
       obtain ⟨j', rfl⟩ : ∃ j', j = j'+1 := ⟨j-1, by omega⟩
@@ -117,7 +117,7 @@ theorem CInv_step (I J K : Nat) (hJ : 1 ≤ J) (hJn : J < n) (hK : K < s2) (st :
       intro e
       exact heq (idx3_inj hj hk hJn hK e)
     have hval : cumStep add n s2 I J K st (idx3 n s2 i j k) = st (idx3 n s2 i j k) := by
-      unfold cumStep setAt
+      unfold cumStep monoSetAt
       simp only [hne, if_false]
     rw [hval]
     constructor
